@@ -44,6 +44,8 @@ TYPEINFO = {
 UNITS = {
     "m":    (Fraction(1), "length"),
     "cm":   (Fraction(1, 100), "length"),
+    "mm":   (Fraction(1, 1000), "length"),
+    "um":   (Fraction(1, 10 ** 6), "length"),
     "km":   (Fraction(1000), "length"),
     "J":    (Fraction(1), "energy"),
     "erg":  (Fraction(1, 10 ** 7), "energy"),
